@@ -994,19 +994,10 @@ static int handleResponse(KSI_AsyncClient *c, void *resp,
 		KSI_Integer *status = NULL;
 		void *req = NULL;
 
-		res = asyncHandle_getRequest(handle, &req);
-		if (res != KSI_OK) {
-			KSI_pushError(c->ctx, res, NULL);
-			goto cleanup;
-		}
-
-		res = resp_verifyWithRequest(resp, req);
-		if (res != KSI_OK) {
-			KSI_pushError(c->ctx, res, NULL);
-			goto cleanup;
-		}
-
-		/* Verify response status. */
+		/* Verify response status first. A non-zero status concerns only the request the response names (the
+		 * handle has been looked up by the response request id above), it is not a failure of the connection.
+		 * NB! #KSI_ExtendResp_verifyWithRequest returns the converted status itself, thus it must not be
+		 * consulted for a response that carries an error status. */
 		res = resp_getStatus(resp, &status);
 		if (res != KSI_OK) {
 			KSI_pushError(c->ctx, res, NULL);
@@ -1025,6 +1016,18 @@ static int handleResponse(KSI_AsyncClient *c, void *resp,
 			handle->errExt = (long)KSI_Integer_getUInt64(status);
 			handle->errMsg = KSI_Utf8String_ref(errorMsg);
 		} else {
+			res = asyncHandle_getRequest(handle, &req);
+			if (res != KSI_OK) {
+				KSI_pushError(c->ctx, res, NULL);
+				goto cleanup;
+			}
+
+			res = resp_verifyWithRequest(resp, req);
+			if (res != KSI_OK) {
+				KSI_pushError(c->ctx, res, NULL);
+				goto cleanup;
+			}
+
 			handle->respCtx = resp_ref(resp);
 			handle->respCtx_free = resp_free;
 
